@@ -53,10 +53,10 @@ OWN = {
     'C07': [PT_RUNTIME, SER + r'\w+\.(decode_struct|decode_struct_fields|decode_union|decode_union_dict|'
                   r'decode_union_old|determine_struct_tree_subtype)$',
             BASE + r'Attribute\.__get__$'],
-    'C08': [PT_RUNTIME, VAL + r'\w+\.(validate\w*|__init__)$', BASE + r'(Attribute\.__set__|Union\.__init__)$',
+    'C08': [PT_RUNTIME, DT + r'\w+\.__init__$', VAL + r'\w+\.(validate\w*|__init__)$', BASE + r'(Attribute\.__set__|Union\.__init__)$',
             PT + r'(generate_validator_constructor|generate_func_call)$'],
     'C09': [EMIT, PT, B + r'python_helpers\.', API + r'ApiNamespace\.get_imported_namespaces$'],
-    'C10': [PT_RUNTIME, DT + r'\w+\.(check|check_example|_compute_example\w*|get_examples|_add_example\w*|'
+    'C10': [PT_RUNTIME, DT + r'\w+\.__init__$', DT + r'\w+\.(check|check_example|_compute_example\w*|get_examples|_add_example\w*|'
                  r'_has_example)$', IG + r'(_populate_field_defaults|_create_struct_field)$',
             PT + r'PythonTypesBackend\.(_generate_struct_attributes_defaults|'
                  r'_generate_python_value|_generate_struct_class_properties)$'],
